@@ -35,7 +35,13 @@ TFinish ==
   /\ Chk("ReindexWhenUnindexed", Ev.reindexed = reindexed)
   /\ UNCHANGED rvars
 
-TNext == TAssign \/ TFinish
+(* run-time observation: the compiled generated Fex was called at temperature Ev.T (scaled by 100) in ONE process, after other
+   temperatures; Ev.active = the reactions whose rate coefficient was non-zero in that call *)
+TEval ==
+  /\ IsEv("Eval")
+  /\ Chk("ActiveExactlyInsideWindow", \A i \in DOMAIN R : (i \in ToSetOf(Ev.active)) = (Overridden(R, Mods, i) \/ Active(R[i].tmin, R[i].tmax, Ev.T)))
+  /\ UNCHANGED rvars
+TNext == TAssign \/ TFinish \/ TEval
 TSpec == TInit /\ [][TNext]_<<rvars, tid, l>>
 Track ==
   /\ Chk("Inv:OnlyTargetsChanged", OnlyTargetsChanged)
